@@ -109,11 +109,19 @@ func (s *Style) String(x pdf.String) string {
 	// one decision per string: either all parentheses stay raw (only possible
 	// if they are balanced) or all are escaped
 	rawParens := balanced && s.draw("paren", 2) == 1
+	// afterRawCR: the previous output byte is a raw CR (standing for an LF, or
+	// ending a line continuation); a raw LF right after it would be read as
+	// the second half of CR LF
+	afterRawCR := false
 	for i := 0; i < len(x); i++ {
 		c := x[i]
 		if s.draw("cont", 40) == 39 {
-			sb.WriteString("\\" + []string{"\n", "\r\n"}[s.draw("conteol", 2)]) // line continuation, ignored
+			eol := []string{"\n", "\r\n", "\r"}[s.draw("conteol", 3)]
+			sb.WriteString("\\" + eol) // line continuation, ignored
+			afterRawCR = eol == "\r"
 		}
+		wasAfterRawCR := afterRawCR
+		afterRawCR = false
 		nextIsDigit := i+1 < len(x) && x[i+1] >= '0' && x[i+1] <= '9'
 		octal := func() {
 			if nextIsDigit || s.draw("oct3", 2) == 0 {
@@ -133,13 +141,20 @@ func (s *Style) String(x pdf.String) string {
 				sb.WriteByte(c)
 			}
 		case c == '\n':
-			switch s.draw("lf", 4) {
+			k := s.draw("lf", 5)
+			if wasAfterRawCR && k == 1 {
+				k = 0
+			}
+			switch k {
 			case 0:
 				sb.WriteString("\\n")
 			case 1:
 				sb.WriteString("\n") // raw EOL reads as LF
 			case 2:
 				sb.WriteString("\r\n") // raw CRLF reads as LF too
+			case 3:
+				sb.WriteString("\r") // and so does a lone raw CR
+				afterRawCR = true
 			default:
 				octal()
 			}
